@@ -10,7 +10,7 @@
 //! checks with RIB read-back; and a few sessions whose role / cluster-id are
 //! derived by the daemon's own `accept_connection` from neighbour configuration.
 //! Oracle: `expected_export`, written from the property statement.
-use super::super::export::NlriSink;
+use super::super::export::{GroupedSink, NlriSink};
 use super::super::*;
 use crate::verif_common::{Json, Params, Report, Rng, fnv64, guard, panic_class};
 use std::collections::{BTreeMap, BTreeSet};
@@ -1925,6 +1925,552 @@ async fn run_derived(ctx: &mut Ctx) {
     }
 }
 
+// ------------------------------------------------------------------ the real sinks end to end (wire grouping)
+//
+// process_nlri_change -> GroupedSink::into_messages (initial dump) and
+// process_nlri_change -> PendingTx::drain_messages (incremental), for batches of
+// prefixes whose exported attribute sets collide while their next hops differ (and
+// vice versa).  The UPDATEs are flattened per (prefix, path id) and each entry is
+// judged by expected_export; a shadow recording sink fed with the same calls tells
+// "value of another route" from "value nobody was handed".
+
+const WIRE_RECV: &str = "10.0.0.3";
+
+struct WPath {
+    cell: Cell,
+    spec: Spec,
+    env: Env,
+    path: table::Path,
+    exp: Expected,
+}
+
+struct WRoute {
+    net: packet::Nlri,
+    dest_id: u32,
+    paths: Vec<WPath>,
+}
+
+struct Batch {
+    dst: PeerRole,
+    cl: Cl,
+    confed: bool,
+    addpath: bool,
+    policy: u8,
+    ctx_asn_confed: bool,
+}
+
+type WireKey = (usize, u32);
+type WireVal = (Option<bgp::Nexthop>, Arc<Vec<packet::Attribute>>);
+
+struct SrcCache {
+    m: BTreeMap<(u8, bool, bool), Arc<table::Source>>,
+}
+
+fn src_index(s: Src) -> u8 {
+    SRCS.iter().position(|x| *x == s).unwrap() as u8
+}
+
+impl SrcCache {
+    fn get(&mut self, cell: &Cell, env: &mut Env, llgr: bool) -> Arc<table::Source> {
+        let recv: IpAddr = WIRE_RECV.parse().unwrap();
+        env.recv_addr = recv;
+        if !cell.src.is_peer() {
+            return make_source(cell, env, false);
+        }
+        let idx = src_index(cell.src);
+        env.src_addr = if cell.echo {
+            recv
+        } else {
+            IpAddr::V4(Ipv4Addr::new(10, 0, 1, idx * 2 + llgr as u8 + 1))
+        };
+        let key = (idx, llgr, cell.echo);
+        if let Some(s) = self.m.get(&key) {
+            return Arc::clone(s);
+        }
+        let s = make_source(cell, env, llgr);
+        self.m.insert(key, Arc::clone(&s));
+        s
+    }
+}
+
+const WIRE_NH_POOL: [Ipv4Addr; 3] = [
+    Ipv4Addr::new(192, 0, 2, 55),
+    Ipv4Addr::new(192, 0, 2, 56),
+    Ipv4Addr::new(192, 0, 2, 57),
+];
+
+fn gen_wpath(
+    rng: &mut Rng,
+    b: &Batch,
+    templates: &[(Spec, Arc<Vec<packet::Attribute>>)],
+    cache: &mut SrcCache,
+    pid: u32,
+    rep: &mut Report,
+) -> WPath {
+    let (tspec, tattrs) = rng.pick(templates);
+    let mut spec = tspec.clone();
+    // source kinds that the receiver mostly hears, plus a few that must be filtered
+    let src = if rng.chance(1, 6) {
+        *rng.pick(&SRCS)
+    } else if b.dst == PeerRole::RsClient {
+        Src::RsClient
+    } else {
+        *rng.pick(&[Src::Ebgp, Src::Ebgp, Src::IbgpRrClient, Src::ConfedEbgp, Src::Local, Src::Kernel, Src::Ibgp])
+    };
+    let echo = src.is_peer() && rng.chance(1, 12);
+    let cell = Cell { src, dst: b.dst, cl: b.cl, confed: b.confed, echo };
+    spec.llgr = src.is_peer() && rng.chance(1, 6);
+    let nh_pick = rng.below(7);
+    spec.nh = if nh_pick == 6 { 2 } else { 0 };
+    let mut env = make_env(&cell, &spec);
+    if spec.nh == 0 && !(spec.nh_unspec && src == Src::Local) {
+        env.stored_nh = Some(bgp::Nexthop::V4(WIRE_NH_POOL[(nh_pick % 3) as usize]));
+    }
+    let source = cache.get(&cell, &mut env, spec.llgr);
+    let attr = if rng.bool() {
+        rep.count("wire:input-same-arc");
+        Arc::clone(tattrs)
+    } else {
+        rep.count("wire:input-different-arc");
+        Arc::new(build_attrs(&spec))
+    };
+    let exp = expected_export(&cell, &spec, &env);
+    let path = table::Path { local_path_id: pid, source, nexthop: env.stored_nh, attr };
+    WPath { cell, spec, env, path, exp }
+}
+
+fn gen_batch(rng: &mut Rng) -> (Batch, Vec<(Spec, Arc<Vec<packet::Attribute>>)>) {
+    // receivers towards which the stored next hop is passed through get most batches
+    let dst = *rng.pick(&[
+        PeerRole::Ibgp,
+        PeerRole::Ibgp,
+        PeerRole::IbgpRrClient,
+        PeerRole::IbgpRrClient,
+        PeerRole::RsClient,
+        PeerRole::RsClient,
+        PeerRole::Ebgp,
+        PeerRole::ConfedEbgp,
+    ]);
+    let cl = if is_ibgp_role(dst) {
+        if rng.bool() { Cl::Default } else { Cl::Explicit }
+    } else {
+        Cl::None
+    };
+    let b = Batch {
+        dst,
+        cl,
+        confed: rng.chance(1, 4),
+        addpath: rng.bool(),
+        // none (mostly), nh-unchanged (keeps explicit next hops towards eBGP), MED actions
+        policy: *rng.pick(&[0u8, 0, 0, 4, 4, 5, 6]),
+        ctx_asn_confed: rng.bool(),
+    };
+    let n_t = rng.range(1, 3) as usize;
+    let mut templates = Vec::new();
+    for _ in 0..n_t {
+        let mut s = random_spec(rng);
+        s.nh = 0;
+        s.addpath = b.addpath;
+        s.policy = b.policy;
+        s.ctx_asn_confed = b.ctx_asn_confed;
+        s.decoy = false;
+        s.link_local = false;
+        s.llgr = false;
+        // long paths only now and then: keep batches cheap
+        if shape_has_full(s.path) && rng.chance(3, 4) {
+            s.path = 2;
+        }
+        let a = Arc::new(build_attrs(&s));
+        templates.push((s, a));
+    }
+    (b, templates)
+}
+
+fn wire_net(i: usize) -> packet::Nlri {
+    format!("10.{}.{}.0/24", 100 + i / 250, i % 250).parse().unwrap()
+}
+
+/// Apply drained messages to the receiver's view.  Returns keys that occurred
+/// twice among the advertisements of this drain.
+fn apply_wire_msgs(
+    msgs: &[bgp::Message],
+    index: &FnvHashMap<packet::Nlri, usize>,
+    view: &mut BTreeMap<WireKey, WireVal>,
+    unknown: &mut u64,
+) -> Vec<WireKey> {
+    let mut seen: BTreeSet<WireKey> = BTreeSet::new();
+    let mut dups = Vec::new();
+    for m in msgs {
+        match m {
+            bgp::Message::Update(bgp::Update::Unreach { entries, .. }) => {
+                for e in entries {
+                    match index.get(&e.nlri) {
+                        Some(i) => {
+                            view.remove(&(*i, e.path_id));
+                        }
+                        None => *unknown += 1,
+                    }
+                }
+            }
+            bgp::Message::Update(bgp::Update::Reach { entries, nexthop, attr, .. }) => {
+                for e in entries {
+                    match index.get(&e.nlri) {
+                        Some(i) => {
+                            let k = (*i, e.path_id);
+                            if !seen.insert(k) {
+                                dups.push(k);
+                            }
+                            view.insert(k, (*nexthop, Arc::clone(attr)));
+                        }
+                        None => *unknown += 1,
+                    }
+                }
+            }
+            _ => {}
+        }
+    }
+    dups
+}
+
+fn wire_witness(sink: &str, b: &Batch, routes: &[WRoute], key: WireKey, wire: Option<&WireVal>, handed: Option<&WireVal>, log: &[String]) -> Json {
+    let r = &routes[key.0];
+    let wp = if b.addpath { r.paths.iter().find(|p| p.path.local_path_id == key.1) } else { r.paths.first() };
+    let show = |v: Option<&WireVal>| match v {
+        None => Json::s("absent"),
+        Some((nh, a)) => Json::obj(vec![("nexthop", Json::s(format!("{:?}", nh))), ("attrs", attrs_json(a))]),
+    };
+    Json::obj(vec![
+        ("sink", Json::s(sink)),
+        ("receiver_role", Json::s(role_name(b.dst))),
+        ("cluster_id", Json::s(format!("{:?}", b.cl.id()))),
+        ("confederation", Json::Bool(b.confed)),
+        ("branch", Json::s(if b.addpath { "add-path" } else { "plain" })),
+        ("export_policy", Json::s(policy_name(b.policy))),
+        ("prefix", Json::s(format!("{}", r.net))),
+        ("path_id", Json::Int(key.1 as i128)),
+        ("cell", Json::s(wp.map(|p| format!("{:?}", p.cell)).unwrap_or_default())),
+        ("spec", Json::s(wp.map(|p| format!("{:?}", p.spec)).unwrap_or_default())),
+        ("stored_nexthop", Json::s(wp.map(|p| format!("{:?}", p.env.stored_nh)).unwrap_or_default())),
+        ("input_attrs", wp.map(|p| attrs_json(&p.path.attr)).unwrap_or(Json::Null)),
+        ("on_the_wire", show(wire)),
+        ("handed_to_the_sink", show(handed)),
+        ("batch_prefixes", Json::Int(routes.len() as i128)),
+        ("history", Json::strs(log.iter().rev().take(40).rev().cloned())),
+    ])
+}
+
+/// Judge the receiver's view against expected_export of every route's current
+/// state and against what process_nlri_change handed to the (shadow) sink.
+#[allow(clippy::too_many_arguments)]
+fn judge_wire_view(
+    ctx: &mut Ctx,
+    sink: &'static str,
+    b: &Batch,
+    routes: &[WRoute],
+    processed: &[bool],
+    view: &BTreeMap<WireKey, WireVal>,
+    shadow: &BTreeMap<WireKey, WireVal>,
+    log: &[String],
+) {
+    let same = |a: &WireVal, c: &WireVal| a.0 == c.0 && (Arc::ptr_eq(&a.1, &c.1) || *a.1 == *c.1);
+    // 1. lossless: the view is exactly what was handed over, entry by entry
+    for (k, handed) in shadow {
+        if !processed[k.0] {
+            continue;
+        }
+        match view.get(k) {
+            None => {
+                let sig = format!("C09/wire-grouping/{}/prefix-lost", sink);
+                let w = wire_witness(sink, b, routes, *k, None, Some(handed), log);
+                ctx.rep.violation(&sig, "a route handed to the sink never shows up in the UPDATE messages", w);
+            }
+            Some(wire) => {
+                if wire.0 != handed.0 {
+                    let other = shadow.iter().any(|(k2, h2)| k2 != k && h2.0 == wire.0);
+                    let fact = if other { "nexthop-of-another-route" } else { "nexthop-wrong" };
+                    let sig = format!("C09/wire-grouping/{}/{}", sink, fact);
+                    let w = wire_witness(sink, b, routes, *k, Some(wire), Some(handed), log);
+                    ctx.rep.violation(&sig, &format!("prefix is advertised with next hop {:?} but process_nlri_change exported it with {:?}", wire.0, handed.0), w);
+                }
+                if !(Arc::ptr_eq(&wire.1, &handed.1) || *wire.1 == *handed.1) {
+                    let other = shadow.iter().any(|(k2, h2)| k2 != k && *h2.1 == *wire.1);
+                    let fact = if other { "attrs-of-another-route" } else { "attrs-wrong" };
+                    let sig = format!("C09/wire-grouping/{}/{}", sink, fact);
+                    let w = wire_witness(sink, b, routes, *k, Some(wire), Some(handed), log);
+                    ctx.rep.violation(&sig, "prefix is advertised with an attribute set other than the one process_nlri_change exported for it", w);
+                }
+            }
+        }
+    }
+    for (k, wire) in view {
+        if !shadow.contains_key(k) {
+            let sig = format!("C09/wire-grouping/{}/stale-entry", sink);
+            let w = wire_witness(sink, b, routes, *k, Some(wire), None, log);
+            ctx.rep.violation(&sig, "the receiver holds an advertisement that was withdrawn / never handed to the sink", w);
+        }
+    }
+    // 2. the statement, on what really goes out
+    for (ri, r) in routes.iter().enumerate() {
+        if !processed[ri] {
+            continue;
+        }
+        let subjects: Vec<(u32, &WPath)> = if b.addpath {
+            r.paths.iter().map(|p| (p.path.local_path_id, p)).collect()
+        } else {
+            r.paths.first().map(|p| (0u32, p)).into_iter().collect()
+        };
+        for (pid, wp) in subjects {
+            let k = (ri, pid);
+            ctx.rep.eval();
+            ctx.rep.count(if sink == "grouped" { "wire:grouped:entries-judged" } else { "wire:pending:entries-judged" });
+            let wire = view.get(&k);
+            let e = match (&wp.exp, wire) {
+                (Expected::Suppress(clause), Some(w)) => {
+                    let sig = format!("C09/wire-grouping/{}/suppressed-route-sent", sink);
+                    let wj = wire_witness(sink, b, routes, k, Some(w), shadow.get(&k), log);
+                    ctx.rep.violation(&sig, &format!("a route the {} rule forbids is in the UPDATE messages", clause), wj);
+                    continue;
+                }
+                (Expected::Suppress(_), None) | (Expected::Either(..), _) => continue,
+                (Expected::Send(_), None) => {
+                    // already reported as prefix-lost when it was handed over; when it was
+                    // not even handed over the matrix part owns the finding
+                    ctx.rep.count("wire:expected-send-absent");
+                    continue;
+                }
+                (Expected::Send(e), Some(_)) => e,
+            };
+            let (nh, attrs) = wire.unwrap();
+            ctx.rep.nontrivial(fnv64(format!("wire|{}|{:?}|{:?}|{:?}", sink, wp.cell, wp.spec, wp.env.stored_nh).as_bytes()));
+            if !matches!(e.nexthop, ExpNh::Any) {
+                ctx.rep.count("wire:nexthop-judged");
+            }
+            for (clause, fact, text) in judge(&wp.cell, &wp.spec, e, *nh, attrs) {
+                let handed_ok = shadow.get(&k).is_some_and(|h| same(h, &(*nh, Arc::clone(attrs))));
+                let sig = if handed_ok {
+                    // the sink was handed this very value: a rewrite defect, not a grouping one
+                    format!("C09/{}/{}/{}", clause, wp.cell.pair(), fact)
+                } else if clause == "nexthop" || clause == "policy-nexthop" {
+                    format!("C09/wire-grouping/{}/nexthop-of-another-route", sink)
+                } else {
+                    format!("C09/wire-grouping/{}/attrs-of-another-route", sink)
+                };
+                let wj = wire_witness(sink, b, routes, k, wire, shadow.get(&k), log);
+                ctx.rep.violation(&sig, &format!("on the wire ({} sink): {} -> {}: {}", sink, wp.cell.src.name(), role_name(b.dst), text), wj);
+            }
+        }
+    }
+    // coverage: exported attribute sets that collide while next hops differ, and the converse
+    let mut by_attr: Vec<(&Arc<Vec<packet::Attribute>>, BTreeSet<String>, u32)> = Vec::new();
+    for (nh, a) in shadow.values() {
+        match by_attr.iter_mut().find(|x| **x.0 == **a) {
+            Some(x) => {
+                x.1.insert(format!("{:?}", nh));
+                x.2 += 1;
+            }
+            None => by_attr.push((a, [format!("{:?}", nh)].into_iter().collect(), 1)),
+        }
+    }
+    for (_, nhs, n) in &by_attr {
+        if nhs.len() > 1 {
+            ctx.rep.count("wire:equal-attrs-different-nexthops");
+        }
+        if *n > 1 {
+            ctx.rep.count("wire:attr-set-shared-by-several-prefixes");
+        }
+    }
+    let mut by_nh: BTreeMap<String, u32> = BTreeMap::new();
+    for (nh, a) in shadow.values() {
+        let e = by_nh.entry(format!("{:?}", nh)).or_insert(0);
+        if by_attr.iter().filter(|x| x.1.contains(&format!("{:?}", nh))).count() > 1 && *e == 0 {
+            ctx.rep.count("wire:equal-nexthop-different-attrs");
+        }
+        *e += 1;
+        let _ = a;
+    }
+}
+
+fn run_wire_batch(ctx: &mut Ctx, rng: &mut Rng, use_pending: bool) {
+    let sink_name: &'static str = if use_pending { "pending" } else { "grouped" };
+    let (b, templates) = gen_batch(rng);
+    let family = Family::IPV4;
+    let n = rng.range(4, 40) as usize;
+    let mut cache = SrcCache { m: BTreeMap::new() };
+    let mut routes: Vec<WRoute> = Vec::new();
+    let mut index: FnvHashMap<packet::Nlri, usize> = FnvHashMap::default();
+    for i in 0..n {
+        let npaths = if b.addpath { rng.range(1, 3) as u32 } else { rng.range(1, 2) as u32 };
+        let paths: Vec<WPath> = (0..npaths).map(|k| gen_wpath(rng, &b, &templates, &mut cache, k + 1, &mut ctx.rep)).collect();
+        let net = wire_net(i);
+        index.insert(net.clone(), i);
+        routes.push(WRoute { net, dest_id: 100 + i as u32, paths });
+    }
+    let recv: IpAddr = WIRE_RECV.parse().unwrap();
+    let ctx_local_asn = routes[0].paths[0].env.ctx_local_asn;
+    let export_ctx = PeerExportContext {
+        role: b.dst,
+        local_asn: ctx_local_asn,
+        local_addr: "10.0.0.1".parse().unwrap(),
+        link_addr: None,
+        confederation_id: if b.confed { CONFED_ID } else { 0 },
+    };
+    let policy = ctx.pol.v4[b.policy as usize].clone();
+    let emax = if b.addpath { 4 } else { 1 };
+    let new_em = || if b.addpath { ExportMap::new([family]) } else { ExportMap::default() };
+    let mut em_real = new_em();
+    let mut em_shadow = new_em();
+    let mut view: BTreeMap<WireKey, WireVal> = BTreeMap::new();
+    let mut shadow: BTreeMap<WireKey, WireVal> = BTreeMap::new();
+    let mut processed = vec![false; n];
+    let mut log: Vec<String> = Vec::new();
+    let mut unknown = 0u64;
+    ctx.rep.count(if use_pending { "wire:pending:batches" } else { "wire:grouped:batches" });
+    ctx.rep.count(&format!("wire:receiver:{}", role_name(b.dst)));
+    ctx.rep.count(if b.addpath { "wire:add-path" } else { "wire:plain" });
+
+    let change_of = |r: &WRoute, replaced: Option<u32>| table::NlriChange {
+        family,
+        net: r.net.clone(),
+        dest_id: r.dest_id,
+        best_changed: true,
+        any_changed: true,
+        replaced_path_id: replaced,
+        current_paths: Arc::new(r.paths.iter().map(|p| p.path.clone()).collect()),
+    };
+    // feed one change to the real sink and to the shadow recorder
+    macro_rules! feed {
+        ($sink:expr, $ri:expr, $replaced:expr) => {{
+            let ch = change_of(&routes[$ri], $replaced);
+            process_nlri_change(&ch, emax, recv, &mut em_real, $sink, &export_ctx, policy.as_deref(), b.cl.id(), None, None, None);
+            let mut rec = Rec::default();
+            process_nlri_change(&ch, emax, recv, &mut em_shadow, &mut rec, &export_ctx, policy.as_deref(), b.cl.id(), None, None, None);
+            for (_, pid) in rec.unreach {
+                shadow.remove(&($ri, if b.addpath { pid } else { 0 }));
+            }
+            for (_, pid, nh, attrs, _) in rec.reach {
+                shadow.insert(($ri, if b.addpath { pid } else { 0 }), (nh, attrs));
+            }
+            processed[$ri] = true;
+        }};
+    }
+
+    let res = guard(|| {
+        if !use_pending {
+            // initial dump: every destination once, then into_messages
+            let mut sink = GroupedSink::new(b.addpath);
+            for ri in 0..n {
+                feed!(&mut sink, ri, None);
+            }
+            log.push(format!("initial dump of {} prefixes through GroupedSink", n));
+            let msgs = sink.into_messages(family);
+            let mut multi = 0;
+            for m in &msgs {
+                if let bgp::Message::Update(bgp::Update::Reach { entries, .. }) = m {
+                    if entries.len() > 1 {
+                        multi += 1;
+                    }
+                }
+            }
+            ctx.rep.count_n("wire:messages-with-several-prefixes", multi);
+            let dups = apply_wire_msgs(&msgs, &index, &mut view, &mut unknown);
+            for k in dups {
+                let sig = format!("C09/wire-grouping/{}/prefix-duplicated", sink_name);
+                let w = wire_witness(sink_name, &b, &routes, k, view.get(&k), shadow.get(&k), &log);
+                ctx.rep.violation(&sig, "the same (prefix, path id) is advertised twice in one dump", w);
+            }
+            judge_wire_view(ctx, sink_name, &b, &routes, &processed, &view, &shadow, &log);
+        } else {
+            let mut pending = crate::peer_tx::PendingTx::new(b.addpath);
+            // announcements, then replacements and withdrawals, drained at random points
+            let mut order: Vec<usize> = (0..n).collect();
+            rng.shuffle(&mut order);
+            let mut ops: Vec<(usize, u8)> = order.iter().map(|i| (*i, 0u8)).collect();
+            let mut later: Vec<(usize, u8)> = Vec::new();
+            for i in 0..n {
+                match rng.below(4) {
+                    0 => later.push((i, 1)),
+                    1 => later.push((i, 2)),
+                    2 => {
+                        later.push((i, 1));
+                        later.push((i, 2));
+                    }
+                    _ => {}
+                }
+            }
+            // keep per-prefix order (replace before withdraw), shuffle across prefixes
+            let mut keyed: Vec<(u64, (usize, u8))> = later.into_iter().map(|o| (rng.below(1000) * 4 + o.1 as u64, o)).collect();
+            keyed.sort();
+            ops.extend(keyed.into_iter().map(|x| x.1));
+            let total = ops.len();
+            for (step, (ri, kind)) in ops.into_iter().enumerate() {
+                match kind {
+                    0 => {
+                        feed!(&mut pending, ri, None);
+                        log.push(format!("announce {}", routes[ri].net));
+                    }
+                    1 => {
+                        // replace one path (new attributes and/or next hop), same path id
+                        if routes[ri].paths.is_empty() {
+                            continue;
+                        }
+                        let pi = rng.usize(routes[ri].paths.len());
+                        let pid = routes[ri].paths[pi].path.local_path_id;
+                        let np = gen_wpath(rng, &b, &templates, &mut cache, pid, &mut ctx.rep);
+                        routes[ri].paths[pi] = np;
+                        feed!(&mut pending, ri, Some(pid));
+                        ctx.rep.count("wire:pending:replacements");
+                        log.push(format!("replace path {} of {}", pid, routes[ri].net));
+                    }
+                    _ => {
+                        routes[ri].paths.clear();
+                        feed!(&mut pending, ri, None);
+                        ctx.rep.count("wire:pending:withdrawals");
+                        log.push(format!("withdraw {}", routes[ri].net));
+                    }
+                }
+                if rng.chance(1, 8) || step + 1 == total {
+                    let msgs = pending.drain_messages(family);
+                    let mut multi = 0;
+                    for m in &msgs {
+                        if let bgp::Message::Update(bgp::Update::Reach { entries, .. }) = m {
+                            if entries.len() > 1 {
+                                multi += 1;
+                            }
+                        }
+                    }
+                    ctx.rep.count_n("wire:messages-with-several-prefixes", multi);
+                    ctx.rep.count("wire:pending:drains");
+                    log.push(format!("drain_messages -> {} messages", msgs.len()));
+                    let dups = apply_wire_msgs(&msgs, &index, &mut view, &mut unknown);
+                    for k in dups {
+                        let sig = format!("C09/wire-grouping/{}/prefix-duplicated", sink_name);
+                        let w = wire_witness(sink_name, &b, &routes, k, view.get(&k), shadow.get(&k), &log);
+                        ctx.rep.violation(&sig, "the same (prefix, path id) is advertised twice in one drain", w);
+                    }
+                    judge_wire_view(ctx, sink_name, &b, &routes, &processed, &view, &shadow, &log);
+                }
+            }
+        }
+    });
+    if let Err(p) = res {
+        let sig = format!("C09/panic/{}:{}", p.location, panic_class(&p.message));
+        ctx.rep.violation(&sig, &format!("wire workload ({}) panicked at {}: {}", sink_name, p.location, p.message), Json::strs(log.clone()));
+    }
+    if unknown > 0 {
+        ctx.rep.violation(&format!("C09/wire-grouping/{}/unknown-prefix", sink_name), "an UPDATE carries a prefix that was never handed to the sink", Json::strs(log));
+    }
+}
+
+fn run_wire(ctx: &mut Ctx, rng: &mut Rng, batches: u64) {
+    for i in 0..batches {
+        if !ctx.rep.in_budget() {
+            ctx.rep.inconclusive("wire: time budget used up");
+            break;
+        }
+        run_wire_batch(ctx, rng, i % 2 == 1);
+    }
+}
+
 // ------------------------------------------------------------------ entry point
 
 #[test]
@@ -1957,6 +2503,11 @@ fn run() {
             }
             Err(e) => ctx.rep.inconclusive(&format!("no tokio runtime: {}", e)),
         }
+    }
+    if part == "all" || part == "wire" {
+        let mut wrng = Rng::new(params.seed ^ 0x00C0_9777);
+        let n = params.get_u64("wire_batches", params.n(400, 6000));
+        run_wire(&mut ctx, &mut wrng, n);
     }
     if part == "all" || part == "matrix" {
         let n = params.get_u64("random_per_cell", params.n(40, 1500));
